@@ -404,6 +404,53 @@ def build(run):
         return bounded_ok(n, f"{len(pairs)} pairs of equal forms built from different objects", sample="equal forms have equal signature, hash and repr")
     run.add("laws/equal-forms-from-different-objects", forms_equal_pairs, kind="bounded")
 
+    # ------------------------------------------------------------------ equal expressions are interchangeable whatever objects they share
+    def sharing():
+        """e1 and e2 are equal; in e1 a repeated sub-expression is ONE object, in e2 it is built afresh at each occurrence.  Signature, hash, repr and
+        the numbering of indices / terminals are functions of the structure only, and evaluating == (which may share operand tuples) changes none of them."""
+        from ufl import dx as _dx
+        t = terms()
+        f, g, u, A = t["f"], t["g"], t["u"], t["A"]
+        w2 = Coefficient(t["V"])
+
+        j_, k_ = Index(), Index()
+
+        def X():            # a new object at each call, structurally the same expression (same bound index)
+            return u[j_] * u[j_]
+
+        def P():
+            return w2[k_] * w2[k_]
+        builders = [
+            ("X/(P/X)", lambda x1, x2: x1 / (P() / x2)), ("X*(P + X) + f", lambda x1, x2: x1 * (P() + x2) + f), ("conditional(X < P, X, f)", lambda x1, x2: conditional(lt(x1, P()), x2, f)),
+            ("sin(X)*P*sin(X)", lambda x1, x2: sin(x1) * P() * sin(x2)), ("as_vector([X, P, X])[1]*g", lambda x1, x2: as_vector([x1, P(), x2])[1] * g),
+            ("(X + P)/(X*P)", lambda x1, x2: (x1 + P()) / (x2 * P())), ("P/(X/(P/X))", lambda x1, x2: P() / (x1 / (P() / x2))),
+        ]
+        n = 0
+        for nm, bld in builders:
+            xs = X()
+            e1 = bld(xs, xs)              # shared
+            e2 = bld(X(), X())            # nothing shared
+            xs3 = X()
+            e3 = bld(xs3, X())            # first occurrence shared with nothing
+            forms = [e_ * _dx(t["msh"]) for e_ in (e1, e2, e3)]
+            sig0 = [F_.signature() for F_ in forms]
+            snap0 = [(repr(e_), hash(e_)) for e_ in (e1, e2, e3)]
+            n += 1
+            if len(set(sig0)) != 1:
+                return violated(f"'{nm}' built with a shared / an unshared repeated sub-expression: the expressions are equal (repr {snap0[0][0] == snap0[1][0]}) but the form "
+                                f"signatures differ: {[s_[:12] for s_ in sig0]}", replay={"expr": nm, "signatures": sig0}, reproduced=True, backend="exec")
+            eqs = (e1 == e2, e2 == e3, e3 == e1, e2 == e1)
+            if not all(eqs):
+                return violated(f"'{nm}': structurally equal expressions compare unequal {eqs}", replay={"expr": nm}, reproduced=True, backend="exec")
+            # fresh Form objects over the same expressions (signatures are cached per Form)
+            sig1 = [(e_ * _dx(t["msh"])).signature() for e_ in (e1, e2, e3)]
+            snap1 = [(repr(e_), hash(e_)) for e_ in (e1, e2, e3)]
+            if sig1 != sig0 or snap1 != snap0:
+                return violated(f"'{nm}': evaluating == changed the signature / repr / hash of an operand: before {[s_[:12] for s_ in sig0]}, after {[s_[:12] for s_ in sig1]}",
+                                replay={"expr": nm, "before": sig0, "after": sig1}, reproduced=True, backend="exec")
+        return bounded_ok(n, f"{len(builders)} expressions x 3 sharing patterns", sample="signature, repr and hash depend on the structure only; == leaves them unchanged")
+    run.add("laws/sharing-pattern-does-not-matter", sharing, kind="bounded")
+
     # ------------------------------------------------------------------ (iv) round trips
     def roundtrip():
         t = terms()
